@@ -62,7 +62,7 @@ func fnCmd(args []string) {
 	}
 	var keys []string
 	for k, fc := range cs.Funcs {
-		if fc.IsIface || fc.Trusted {
+		if fc.IsIface || fc.Trusted || fc.Missing {
 			continue
 		}
 		match := len(pat) == 0
@@ -253,7 +253,7 @@ func baselineCmd() {
 	for prop := range props {
 		var names []string
 		for k, fc := range cs.Funcs {
-			if fc.IsIface || fc.Trusted || fc.Inline || !hasProp(fc.Props, prop) {
+			if fc.IsIface || fc.Trusted || fc.Inline || fc.Missing || !hasProp(fc.Props, prop) {
 				continue
 			}
 			res, ok := gen[k]
@@ -266,7 +266,7 @@ func baselineCmd() {
 					continue
 				}
 				switch o.Kind {
-				case "post", "panics", "atreturn":
+				case "post", "panics", "atreturn", "atcall":
 					names = append(names, o.Name)
 				}
 			}
